@@ -565,6 +565,25 @@ def rule_typename_matrix(ctx):
                 c = c['e']
             if c.get('k') == 'call' and ctx.pv.local_fns(c.get('callee')) and neg:
                 guards.append((n, c, f_))
+    # the same decision spelled `if pred(..) { continue } return Err(..)`: an Err return whose path conditions contain
+    # "the predicate was false"
+    seen_calls = {id(c) for _n, c, _f in guards}
+    for f_ in family:
+        for r_ in f_.walk(lambda n: n['k'] == 'ret' and is_err_ctor(n.get('e'))):
+            for pc in P.path_conds(f_, r_):
+                if pc[0] != 'if' or not isinstance(pc[2], bool):
+                    continue
+                c = pc[1]
+                pol = pc[2]
+                while isinstance(c, dict) and c.get('k') in ('unary', 'wrap'):
+                    if c.get('k') == 'unary' and c.get('op') == '!':
+                        pol = not pol
+                    c = c['e']
+                if isinstance(c, dict) and c.get('k') == 'call' and ctx.pv.local_fns(c.get('callee')) and pol is False and id(c) not in seen_calls:
+                    lf_ = ctx.pv.local_fns(c.get('callee'))
+                    if lf_ and lf_[0].d.get('output', '') == 'bool':
+                        seen_calls.add(id(c))
+                        guards.append((r_, c, f_))
     roles = {}
     guard_fn = {}
     for n, c, f_ in guards:
